@@ -133,7 +133,8 @@ func (s Summary) PctRangeString() string {
 	}
 
 	// Phew. Compute the range percent.
-	v := math.Max(s.Hi/s.Center-1, 1-s.Lo/s.Center)
+	// (For a negative center both differences come out negated.)
+	v := math.Max(math.Abs(s.Hi/s.Center-1), math.Abs(1-s.Lo/s.Center))
 	return fmt.Sprintf("%.0f%%", 100*v)
 }
 
